@@ -60,6 +60,13 @@ func c18Base() *spec.Program {
 	m("CTM", nil, f("CmStr", 1, spec.KString))
 	m("RootI", nil, f("IStr", 1, spec.KString), f("ISpec", 2, spec.KMessage, ref("CT")), f("IItems", 3, spec.KMessage, ref("CTL"), list),
 		f("IByKey", 4, spec.KMessage, ref("CTM"), mp))
+	// messages that have no field of their own: the unmappable field is then the only one
+	m("Lone1", nil)
+	m("Lone2", nil)
+	m("Lone3", nil)
+	m("RootJ", nil, f("JStr", 1, spec.KString), f("JOne", 2, spec.KMessage, ref("Lone1")), f("JList", 3, spec.KMessage, ref("Lone2"), list),
+		f("JMap", 4, spec.KMessage, ref("Lone3"), mp))
+	m("RootLone", nil)
 	m("RootBExt", nil, f("BxStr", 1, spec.KString), f("BxInner", 2, spec.KMessage, ref("Inner")))
 	m("RootD2", nil, f("D2Str", 1, spec.KString))
 	// a chain of twelve nested messages (singular, list and map links alternate)
@@ -81,7 +88,7 @@ func c18Base() *spec.Program {
 	m("Clean", nil, f("Name", 1, spec.KString), f("Count", 2, spec.KInt64), f("Inner", 3, spec.KMessage, ref("Inner"), nn))
 	m("Unselected", nil, f("UStr", 1, spec.KString))
 	p.Config = spec.Config{
-		Types:          []string{"RootAExt", "RootA", "RootF", "RootB", "RootC", "RootD", "RootE", "RootG", "RootH", "RootI", "RootDeep", "RootBExt", "RootD2", "Clean"},
+		Types:          []string{"RootAExt", "RootA", "RootF", "RootB", "RootC", "RootD", "RootE", "RootG", "RootH", "RootI", "RootJ", "RootLone", "RootDeep", "RootBExt", "RootD2", "Clean"},
 		ComputedFields: []string{"Clean.Count"},
 		// configured although duration_type is not: a field cast to it has no mapping
 		DurationCustomType: spec.DurationCastName,
@@ -154,6 +161,9 @@ type badPos struct {
 	msg   string
 	first bool
 	oneof string
+	// lone: the bad field is the only field of its message (once excluded, the message differs from the
+	// field-less message of the twin)
+	lone bool
 	// one path-form exclusion key per occurrence (README: Root.Field.Sub), by root
 	pathKeys func(field string) []string
 }
@@ -177,6 +187,10 @@ var badPositions = []badPos{
 	{name: "depth-2-below-custom-typed-message", msg: "CTIn", first: true, pathKeys: func(f string) []string { return []string{"RootI.ISpec.CtIn." + f} }},
 	{name: "below-custom-typed-list", msg: "CTL", pathKeys: func(f string) []string { return []string{"RootI.IItems." + f} }},
 	{name: "below-custom-typed-map", msg: "CTM", pathKeys: func(f string) []string { return []string{"RootI.IByKey." + f} }},
+	{name: "only-field-of-nested-message", lone: true, msg: "Lone1", pathKeys: func(f string) []string { return []string{"RootJ.JOne." + f} }},
+	{name: "only-field-of-list-element", lone: true, msg: "Lone2", pathKeys: func(f string) []string { return []string{"RootJ.JList." + f} }},
+	{name: "only-field-of-map-value", lone: true, msg: "Lone3", pathKeys: func(f string) []string { return []string{"RootJ.JMap." + f} }},
+	{name: "only-field-of-selected-type", lone: true, msg: "RootLone", pathKeys: func(f string) []string { return []string{"RootLone." + f} }},
 	{name: "embedded", msg: "EmbX", pathKeys: nil},
 	// README: options below an embedded field are keyed by the name of the embedding message
 	{name: "embedded-in-element", msg: "EmbY", pathKeys: func(f string) []string { return []string{"Holder." + f} }},
@@ -243,11 +257,15 @@ func C18RealCases(seed uint64, tier string) ([]*Case, map[string]int) {
 					Ref: refRun(b), Run: run, Expect: Expect{Kind: "atomic", Roots: p.Config.Types, Affected: aff}})
 
 				// exclusion by Message.Field restores everything
+				var restoredRoots []string
+				if pos.lone {
+					restoredRoots = aff
+				}
 				pe := cloneProgram(p)
 				pe.Config.ExcludeFields = append(pe.Config.ExcludeFields, pos.msg+"."+fname)
 				kinds["excluded/type-key"]++
 				cases = append(cases, &Case{Property: "C18", Clause: "excluded/type-key/" + k.name + "@" + pos.name, Seed: seed, Tier: tier, Program: pe,
-					Ref: refRun(b), Run: runFrom(pe.Config.Render(nil, nil)), Expect: Expect{Kind: "atomic", Roots: p.Config.Types}})
+					Ref: refRun(b), Run: runFrom(pe.Config.Render(nil, nil)), Expect: Expect{Kind: "atomic", Roots: p.Config.Types, Restored: restoredRoots}})
 
 				// exclusion by full path restores exactly the occurrences named
 				if pos.pathKeys != nil {
@@ -256,7 +274,7 @@ func C18RealCases(seed uint64, tier string) ([]*Case, map[string]int) {
 					pa.Config.ExcludeFields = append(pa.Config.ExcludeFields, keys...)
 					kinds["excluded/path-key"]++
 					cases = append(cases, &Case{Property: "C18", Clause: "excluded/path-key/" + k.name + "@" + pos.name, Seed: seed, Tier: tier, Program: pa,
-						Ref: refRun(b), Run: runFrom(pa.Config.Render(nil, nil)), Expect: Expect{Kind: "atomic", Roots: p.Config.Types}})
+						Ref: refRun(b), Run: runFrom(pa.Config.Render(nil, nil)), Expect: Expect{Kind: "atomic", Roots: p.Config.Types, Restored: restoredRoots}})
 					// a path key restores only the occurrence it names: every other occurrence still drops its root
 					partial := tier == "thorough" || strings.HasPrefix(k.name, "time-without") || strings.HasPrefix(k.name, "map-int32") || strings.HasPrefix(k.name, "custom-duration-cast-without")
 					if len(keys) > 1 && partial {
@@ -272,7 +290,7 @@ func C18RealCases(seed uint64, tier string) ([]*Case, map[string]int) {
 							}
 							kinds["excluded/partial-path-key"]++
 							cases = append(cases, &Case{Property: "C18", Clause: fmt.Sprintf("excluded/partial-path-key#%d/%s@%s", ki, k.name, pos.name), Seed: seed, Tier: tier, Program: pp,
-								Ref: refRun(b), Run: runFrom(pp.Config.Render(nil, nil)), Expect: Expect{Kind: "atomic", Roots: p.Config.Types, Affected: still}})
+								Ref: refRun(b), Run: runFrom(pp.Config.Render(nil, nil)), Expect: Expect{Kind: "atomic", Roots: p.Config.Types, Affected: still, Restored: restoredRoots}})
 						}
 					}
 				}
@@ -360,10 +378,14 @@ func C18RandomRealCases(base *spec.Program, seed uint64, tier string) []*Case {
 		aff := affectedRootsExcl(p, msg)
 		cases = append(cases, &Case{Property: "C18", Clause: "unmappable/" + k.name + "@" + pos.name, Seed: seed, Tier: tier, Program: p,
 			Ref: refRun(), Run: runFrom(p.Config.Render(nil, nil)), Expect: Expect{Kind: "atomic", Roots: p.Config.Types, Affected: aff}})
+		var restored []string
+		if len(b.Msg(msg).Fields) == 0 {
+			restored = aff // the bad field is the only field of its message
+		}
 		pe := cloneProgram(p)
 		pe.Config.ExcludeFields = append(pe.Config.ExcludeFields, msg+"."+fname)
 		cases = append(cases, &Case{Property: "C18", Clause: "excluded/type-key/" + k.name + "@" + pos.name, Seed: seed, Tier: tier, Program: pe,
-			Ref: refRun(), Run: runFrom(pe.Config.Render(nil, nil)), Expect: Expect{Kind: "atomic", Roots: p.Config.Types}})
+			Ref: refRun(), Run: runFrom(pe.Config.Render(nil, nil)), Expect: Expect{Kind: "atomic", Roots: p.Config.Types, Restored: restored}})
 	}
 	return cases
 }
